@@ -549,6 +549,56 @@ def gen_ops(ctx):
     return ops
 
 
+class PureCalls:
+    """proxy for a module of the implementation: every call (i) must leave its array arguments bit-identical (dtype, shape, strides,
+    bytes) - numpy views and in-place operators on the caller's data are a classic way to corrupt a state silently - and (ii) called a
+    second time on the very same argument objects must return the same value.  Violations become failing inputs
+    `<function>:mutates-argument` / `<function>:not-repeatable` (the replay carries the original argument)"""
+
+    def __init__(self, ctx, mod, rp=None, repeat=True):
+        self._ctx, self._mod, self.rp, self._repeat = ctx, mod, (rp or {}), repeat
+
+    @staticmethod
+    def _same(a, b):
+        try:
+            if isinstance(a, (tuple, list)):
+                return len(a) == len(b) and all(PureCalls._same(x, y) for x, y in zip(a, b))
+            a1, b1 = np.asarray(a), np.asarray(b)
+            if a1.dtype == object or b1.dtype == object:
+                return True
+            return a1.shape == b1.shape and bool(np.array_equal(a1, b1, equal_nan=True))
+        except Exception:
+            return True
+
+    def __getattr__(self, name):
+        f = getattr(self._mod, name)
+        if not callable(f):
+            return f
+        ctx, rp = self._ctx, self.rp
+
+        def wrapper(*args, **kw):
+            arrs = [a for a in list(args) + list(kw.values()) if isinstance(a, np.ndarray)]
+            snaps = [(a.copy(), a.dtype, a.shape, a.strides) for a in arrs]
+            r = f(*args, **kw)
+            for a, (s0, dt, sh, st) in zip(arrs, snaps):
+                if a.dtype != dt or a.shape != sh or a.strides != st or not np.array_equal(a, s0, equal_nan=True):
+                    ctx.fail(f'{name}:mutates-argument', f'{name} modified its {dt} argument of shape {sh} in place (max change '
+                             f'{float(np.abs(np.asarray(a, dtype=np.complex128) - s0).max()) if a.shape == sh else "shape"}); the caller\'s array is corrupted',
+                             dict(rp, dtype=str(dt), argument=[[float(np.real(z)), float(np.imag(z))] for z in np.asarray(s0).reshape(-1)], shape=list(sh)))
+                    if a.shape == sh and a.flags.writeable:
+                        a[...] = s0
+            if self._repeat:
+                r2 = f(*args, **kw)
+                if not PureCalls._same(r, r2):
+                    ctx.fail(f'{name}:not-repeatable', f'{name} called twice on the same argument objects returned {str(r)[:80]} and then {str(r2)[:80]}',
+                             dict(rp, dtype=str(arrs[0].dtype) if arrs else ''))
+                for a, (s0, dt, sh, st) in zip(arrs, snaps):
+                    if a.shape == sh and a.flags.writeable and not np.array_equal(a, s0, equal_nan=True):
+                        a[...] = s0
+            return r
+        return wrapper
+
+
 # ---------------------------------------------------------------------------------------------------------------
 # the formulation of the naive symmetric-extension SDP (solver = contract): cvxpy.Variable replaced by an integer Hermitian constant,
 # cvxpy.Problem captured instead of solved, every constraint's left-hand side compared exactly with the model
@@ -776,16 +826,31 @@ def make_separable(rng, dim, nterm, kind):
 def rebuild(desc):
     dim = tuple(desc['dim'])
     if 'rho' in desc:
-        return np.array([[complex(*z) for z in row] for row in desc['rho']]), dim
-    rho = np.zeros((int(np.prod(dim)),) * 2, dtype=np.complex128)
-    for pi, vs in zip(desc['p'], desc['vectors']):
-        psi = product_state([np.array([complex(*z) for z in v]) for v in vs])
-        rho = rho + pi * np.outer(psi, psi.conj())
+        rho = np.array([[complex(*z) for z in row] for row in desc['rho']])
+    else:
+        rho = np.zeros((int(np.prod(dim)),) * 2, dtype=np.complex128)
+        for pi, vs in zip(desc['p'], desc['vectors']):
+            psi = product_state([np.array([complex(*z) for z in v]) for v in vs])
+            rho = rho + pi * np.outer(psi, psi.conj())
+    if desc.get('dtype') and desc['dtype'] != 'complex128':
+        rho = cast_like(rho, desc['dtype'])
+    if desc.get('layout') == 'strided':
+        big = np.zeros((rho.shape[0], 2 * rho.shape[1]), dtype=rho.dtype); big[:, ::2] = rho; rho = big[:, ::2]
     return rho, dim
 
 
 def rho_desc(rho, dim, kind):
-    return dict(dim=list(dim), kind=kind, rho=[[[float(z.real), float(z.imag)] for z in row] for row in np.asarray(rho, dtype=np.complex128)])
+    return dict(dim=list(dim), kind=kind, dtype=str(np.asarray(rho).dtype),
+                rho=[[[float(z.real), float(z.imag)] for z in row] for row in np.asarray(rho, dtype=np.complex128)])
+
+
+def cast_like(rho, dtype):
+    """the same matrix stored with another dtype (real dtypes take the real part: only used for real-valued states)"""
+    dt = np.dtype(dtype)
+    if dt.kind in 'fiu':
+        r = np.asarray(rho).real
+        return np.rint(r).astype(dt) if dt.kind in 'iu' else r.astype(dt)
+    return np.asarray(rho).astype(dt)
 
 
 def family_states():
@@ -831,10 +896,10 @@ def check_bell_diag(ctx, p):
     """on the Bell-diagonal family separable <=> p_max <= 1/2 (theorems bellDiag_ppt_iff, woottersReadout_bellDiag): every criterion
     must accept for p_max <= 1/2 (incl. the boundary) and the PPT-equivalent ones must reject beyond a band around it"""
     import numqi
-    E = numqi.entangle
     rho = bell_diag_rho(p)
     pm = float(max(p))
     rp = dict(rho_desc(rho, (2, 2), 'bell-diagonal'), weights=[float(x) for x in p])
+    E = PureCalls(ctx, numqi.entangle, rp)
     ok = True
     res = dict(is_ppt=guarded(lambda: bool(E.is_ppt(rho, (2, 2)))), is_generalized_ppt=guarded(lambda: bool(E.is_generalized_ppt(rho, (2, 2)))),
                check_reduction_witness=guarded(lambda: bool(E.check_reduction_witness(rho, (2, 2)))), check_swap_witness=guarded(lambda: bool(E.check_swap_witness(rho))))
@@ -967,7 +1032,9 @@ def check_index_layer(ctx, rho, dim, tag, replay):
 def check_state(ctx, rho, dim, tag, replay, meas):
     """every criterion on one separable state; `meas` collects the measured rounding errors"""
     import numqi
-    E = numqi.entangle
+    if isinstance(replay, dict) and 'dtype' not in replay:
+        replay = dict(replay, dtype=str(rho.dtype))
+    E = PureCalls(ctx, numqi.entangle, replay)
     good = True
     def bad(key, what):
         nonlocal good
@@ -1018,10 +1085,65 @@ def check_state(ctx, rho, dim, tag, replay, meas):
     return good
 
 
+def check_state_soft(ctx, rho, dim, tag, replay):
+    """low-precision storage (float32 / complex64): accepted by the clean tree.  The 1e-7 / 1e-10 tolerances are below float32 resolution,
+    so verdicts are not asserted; every call must return without exception, leave its argument untouched and be repeatable, and the
+    closed-form measures must be finite"""
+    import numqi
+    rp = dict(replay, dtype=str(rho.dtype))
+    E = PureCalls(ctx, numqi.entangle, rp)
+    calls = [('is_ppt', lambda: E.is_ppt(rho, dim)), ('is_generalized_ppt', lambda: E.is_generalized_ppt(rho, dim)),
+             ('check_reduction_witness', lambda: E.check_reduction_witness(rho, dim))]
+    if len(dim) == 2:
+        calls.append(('get_negativity', lambda: E.get_negativity(rho, dim)))
+        if dim[0] == dim[1]:
+            calls.append(('check_swap_witness', lambda: E.check_swap_witness(rho)))
+    if tuple(dim) == (2, 2):
+        calls += [('get_concurrence_2qubit', lambda: E.get_concurrence_2qubit(rho)), ('get_eof_2qubit', lambda: E.get_eof_2qubit(rho)),
+                  ('get_gme_2qubit', lambda: E.get_gme_2qubit(rho))]
+    for name, f in calls:
+        with np.errstate(all='ignore'):
+            r = guarded(f)
+        if isinstance(r, str):
+            ctx.fail(f'{name}:{rho.dtype}', f'{name} raised {r} for a {rho.dtype} density matrix that the complex128 path accepts [{tag}]', rp)
+        elif name.startswith('get_') and not np.isfinite(float(r)):
+            ctx.fail(f'{name}:{rho.dtype}', f'{name} returned {r} for a {rho.dtype} separable state [{tag}]', rp)
+        else:
+            ctx.probe_ok()
+
+
+def dtype_variants(ctx, rho, dim, tag, desc, meas):
+    """the same separable state stored with other dtypes / memory layouts (only where the data are real-valued resp. integral)"""
+    if np.abs(rho.imag).max() == 0:
+        r64 = rho.real.copy()
+        safely(ctx, 'criteria:raises', dict(desc, dtype='float64'), lambda: check_state(ctx, r64, dim, tag + '/float64', dict(desc, dtype='float64'), meas))
+        if np.array_equal(r64, np.rint(r64)):
+            ri = np.rint(r64).astype(np.int64)
+            safely(ctx, 'criteria:raises', dict(desc, dtype='int64'), lambda: check_state(ctx, ri, dim, tag + '/int64', dict(desc, dtype='int64'), meas))
+        for dt in (np.float32, np.complex64):
+            safely(ctx, 'criteria:raises', dict(desc, dtype=np.dtype(dt).name), lambda: check_state_soft(ctx, rho.astype(dt) if np.dtype(dt).kind == 'c' else r64.astype(dt), dim, tag, desc))
+    big = np.zeros((rho.shape[0], 2 * rho.shape[1]), dtype=rho.dtype); big[:, ::2] = rho
+    view = big[:, ::2]
+    safely(ctx, 'criteria:raises', dict(desc, layout='strided'), lambda: check_state(ctx, view, dim, tag + '/strided', dict(desc, layout='strided'), meas))
+
+
+def replay_corpus(ctx, meas):
+    """original witnesses of the repaired defects of this property (corpus/C05/*.json), replayed first in both tiers"""
+    import glob, json
+    for f in sorted(glob.glob(os.path.join(common.VERIF, 'corpus', 'C05', '*.json'))):
+        for case in json.load(open(f))['cases']:
+            ctx.count('corpus')
+            def one(case=case):
+                rho, dim = rebuild(case)
+                check_state(ctx, rho, dim, 'corpus/' + os.path.basename(f), case, meas)
+            safely(ctx, 'criteria:raises', case, one)
+
+
 def probe(ctx):
     import numqi
     rng = np.random.default_rng(ctx.np_seed + 17)
     meas = {}
+    replay_corpus(ctx, meas)
     kinds = ['complex', 'real', 'basis', 'repeated', 'parallel']
     nrep = 6 if ctx.quick() else 12
     count = 0
@@ -1037,6 +1159,15 @@ def probe(ctx):
                     ctx.count('probe-dim-' + 'x'.join(map(str, dim)))
                     safely(ctx, 'criteria:raises', desc, lambda: check_state(ctx, rho, dim, tag, desc, meas))
                     count += 1
+                    if kind in ('real', 'basis') and (count % 3 == 0 or nterm == 1):
+                        ctx.count('probe-dtype-variants')
+                        dtype_variants(ctx, rho, dim, tag, desc, meas)
+                    if kind == 'complex' and count % 4 == 0:
+                        # within 1e-6 .. 1e-12 of the maximally mixed state (still separable)
+                        t = 10.0 ** rng.integers(-12, -5)
+                        rm = (1 - t) * np.eye(N) / N + t * rho
+                        ctx.count('probe-near-mixed')
+                        safely(ctx, 'criteria:raises', rho_desc(rm, dim, 'near-mixed'), lambda: check_state(ctx, rm, dim, tag + '/near-mixed', rho_desc(rm, dim, 'near-mixed'), meas))
         # index layer on a generic Hermitian matrix (not a state: every entry distinct)
         H = rng.normal(size=(N, N)) + 1j * rng.normal(size=(N, N)); H = H + H.conj().T
         safely(ctx, 'index-layer:raises', rho_desc(H, dim, 'random-hermitian'), lambda: check_index_layer(ctx, H, dim, 'x'.join(map(str, dim)), rho_desc(H, dim, 'random-hermitian')))
@@ -1045,6 +1176,13 @@ def probe(ctx):
         rho, desc = make_separable(rng, (2, 2), int(rng.integers(1, 9)), 'complex' if k % 3 else 'real')
         ctx.count('probe-2qubit-extra')
         safely(ctx, 'criteria:raises', desc, lambda: check_state(ctx, rho, (2, 2), f'2qubit-extra/{k}', desc, meas))
+    pl = np.array([1.0, 1.0]) / np.sqrt(2); mi = np.array([1.0, -1.0]) / np.sqrt(2); z0 = np.array([1.0, 0.0])
+    for name, vs in [('|++>', [pl, pl]), ('|+->', [pl, mi]), ('|+0>', [pl, z0]), ('|0+>', [z0, pl]), ('|+++>', [pl, pl, pl]), ('|+0->', [pl, z0, mi])]:
+        v = product_state(vs); rr = np.outer(v, v)                # float64, real, not an X-state
+        dimv = (2,) * len(vs)
+        ctx.count('probe-real-product')
+        safely(ctx, 'criteria:raises', rho_desc(rr, dimv, name), lambda: check_state(ctx, rr, dimv, name + '/float64', rho_desc(rr, dimv, name), meas))
+        dtype_variants(ctx, rr.astype(np.complex128), dimv, name, rho_desc(rr.astype(np.complex128), dimv, name), meas)
     for rho, dim, name in (safely(ctx, 'state-families:raises', dict(op='numqi.state.Werner/Isotropic/get_bes*'), family_states) or []):
         ctx.count('probe-family')
         safely(ctx, 'criteria:raises', rho_desc(rho, dim, name), lambda: check_state(ctx, np.asarray(rho, dtype=np.complex128), dim, name, rho_desc(rho, dim, name), meas))
